@@ -1,6 +1,6 @@
 (* C14 — password and one-time-code guessing is throttled. *)
 From Coq Require Import List ZArith Bool.
-From KM Require Import Model.Limiter Model.TotpLimit Proofs.Limiter Proofs.TotpLimit.
+From KM Require Import Model.Limiter Model.TotpLimit Proofs.Limiter Proofs.TotpLimit Proofs.TotpSource.
 Import ListNotations.
 Open Scope Z_scope.
 
@@ -180,11 +180,12 @@ Theorem c14_streak : forall k esc ops,
   fail_count (fst r) = streak (ghost_run k ghost0 ops (snd r)).
 Proof. intros k esc ops. exact (proj1 (ghost_agree k esc ops rl0 ghost0 eq_refl eq_refl)). Qed.
 
-(* lock-out, history form: after ANY history of attempts and cleanup passes, the evaluated failure
+(* lock-out, history form over the alphabet without read sources (`op`; the verdict of every attempt is
+   the environment's): after ANY history of attempts and cleanup passes, the evaluated failure
    that makes the number of consecutive failures every*n locks verification until n hours later:
    whatever is tried before that instant, with any number of cleanup passes at any times in
    between, is refused unevaluated *)
-Theorem c14_lockout_history : forall k pre t v post n,
+Theorem c14_lockout_history_plain : forall k pre t v post n,
   0 < every k -> 0 < n ->
   let r1 := run_ops k true purge_never rl0 pre in
   let g1 := ghost_run k ghost0 pre (snd r1) in
@@ -194,6 +195,67 @@ Theorem c14_lockout_history : forall k pre t v post n,
   lockout (fst a) = t + n * HOUR /\
   Forall (fun x => unevaluated x = true) (snd (run_ops k true purge_never (fst a) post)).
 Proof. exact lockout_history. Qed.
+
+(* lock-out, history form, over the alphabet WITH read sources: a history is a list of requests
+   `Direct o | Cached o` (o an attempt with the submitted code, or a cleanup pass); ANY attempt may be
+   served while the primary profile database does not answer in time (profile from the cache
+   database), in any mix.  After ANY such history, the evaluated failure — itself served from the
+   primary or from the cache — that makes the number of consecutive failures every*n locks
+   verification until n hours later: whatever is tried before that instant, from whichever read
+   source, with any number of cleanup passes in between, is refused unevaluated.  (The ghost streak
+   counts evaluated failures of the history as the throttle sees it, `resolve`: each code replaced by
+   what the replay guard makes of it at that point.) *)
+Theorem c14_lockout_history : forall k pre cached t c post n,
+  0 < every k -> 0 < n ->
+  let r1 := run_src k true purge_never tst0 pre in
+  let g1 := ghost_run k ghost0 (resolve k true purge_never tst0 pre) (snd r1) in
+  let a := attempt_src k true cached (fst r1) t c in
+  snd a = EvalFail -> streak (ghost_step k g1 t EvalFail) = every k * n ->
+  (forall r t2 c2, In r post -> body r = CAtt t2 c2 -> t2 < t + n * HOUR) ->
+  lockout (thr (fst a)) = t + n * HOUR /\
+  Forall (fun x => unevaluated x = true) (snd (run_src k true purge_never (fst a) post)).
+Proof. exact lockout_history_src. Qed.
+
+(* the read source is irrelevant for the throttle: for every history, every policy of the cleanup,
+   every start state, taking the `Cached` modifier off every request (or, second form, assigning the
+   read sources of the same requests in any other way) changes no verdict, nothing in the throttle
+   record (last check, failure count, last failure, lock-out) and not the value the replay guard
+   compares with.  The record is in memory; only whether the accepted step is also WRITTEN to the
+   profile depends on the source (c14_cached_no_write). *)
+Theorem c14_read_source_irrelevant : forall k esc pol h s,
+  snd (run_src k esc pol s h) = snd (run_src k esc pol s (map uncached h)) /\
+  thr (fst (run_src k esc pol s h)) = thr (fst (run_src k esc pol s (map uncached h))) /\
+  guard (fst (run_src k esc pol s h)) = guard (fst (run_src k esc pol s (map uncached h))).
+Proof. exact read_source_irrelevant. Qed.
+
+Theorem c14_read_source_any : forall k esc pol h1 h2 s,
+  map body h1 = map body h2 ->
+  snd (run_src k esc pol s h1) = snd (run_src k esc pol s h2) /\
+  thr (fst (run_src k esc pol s h1)) = thr (fst (run_src k esc pol s h2)) /\
+  guard (fst (run_src k esc pol s h1)) = guard (fst (run_src k esc pol s h2)).
+Proof. exact read_source_any. Qed.
+
+(* the machine with read sources IS the throttle of the theorems above, run on the resolved history:
+   every statement about `run_ops` (spacing, count, cleanup, uint32) transfers *)
+Theorem c14_source_is_throttle : forall k esc pol h s,
+  thr (fst (run_src k esc pol s h)) = fst (run_ops k esc pol (thr s) (resolve k esc pol s h)) /\
+  snd (run_src k esc pol s h) = snd (run_ops k esc pol (thr s) (resolve k esc pol s h)).
+Proof. exact run_src_resolve. Qed.
+
+Theorem c14_cached_no_write : forall k esc pol s o,
+  persisted (fst (step_src k esc pol s (Cached o))) = persisted s.
+Proof. exact cached_no_write. Qed.
+
+(* a validator that returns before the failure bookkeeping when the profile came from the cache:
+   five wrong codes 2.2 s apart during an outage, a sixth, and then the right code with the primary
+   back — all evaluated, count 0, the right code accepted; the code as it is refuses the last two *)
+Theorem c14_cached_lenient_refuted : exists h,
+  let r := run_src_lenient k_prop true tst0 h in
+  snd r = [Some EvalFail; Some EvalFail; Some EvalFail; Some EvalFail; Some EvalFail; Some EvalFail; Some EvalOk] /\
+  fail_count (thr (fst r)) = 0 /\
+  snd (run_src k_prop true purge_never tst0 h)
+    = [Some EvalFail; Some EvalFail; Some EvalFail; Some EvalFail; Some EvalFail; Some RefusedLockout; Some RefusedLockout].
+Proof. exists lenient_hist. exact lenient_refuted. Qed.
 
 (* users stay independent when cleanup passes (which visit every entry) are interleaved *)
 Theorem c14_cleanup_per_user : forall k esc pol u ops m,
